@@ -638,7 +638,65 @@ def evaluate_single(case):
         return res
     cont, _ = convert(res, obj, section, kw)
     judge_section(res, section, kw, cont, f"get_{section}_config")
+    # call history: the caller edits the configuration it got, then asks the builder again with the same
+    # arguments.  The second result must again be what the arguments say (i.e. equal the first result as it
+    # was returned), whatever happened to the first object.
+    n_edits = scramble(obj)
+    obj2 = runner.guarded(res, f"build:{section}:second-call", fn, **build_kwargs(kw, case.get("as_tuple", False)))
+    if obj2 is not runner.FAILED:
+        res2 = Result()
+        cont2, _ = convert(res2, obj2, section, kw)
+        d = diff(cont2, cont)
+        if d:
+            p_, a, e = d[0]
+            res.fail(
+                f"build:{section}:later-call-sees-edits-of-earlier-result:{pstr(p_).split('.')[0] if pstr(p_) else ''}",
+                f"after {n_edits} fields of the first result were edited, a second get_{section}_config(**same kwargs) returns "
+                f"{pstr(p_)} = {a!r} instead of {e!r} ({len(d)} differing options); kwargs={kw}",
+            )
+        res.cls("history=build-edit-build")
+        res.n_evals = 2
     return res
+
+
+def scramble(obj, _depth=0):
+    """Edit every leaf field of an attrs configuration object in place (values of the same type, validators
+    permitting); returns the number of fields changed."""
+    import attrs
+
+    n = 0
+    if not attrs.has(type(obj)) or _depth > 6:
+        return 0
+    for f in attrs.fields(type(obj)):
+        v = getattr(obj, f.name, None)
+        if attrs.has(type(v)):
+            n += scramble(v, _depth + 1)
+            continue
+        if isinstance(v, bool):
+            cand = [not v]
+        elif isinstance(v, int):
+            cand = [v + 1, v * 2, max(0, v - 1)]
+        elif isinstance(v, float):
+            cand = [v / 2 + 0.01, v + 1.0]
+        elif isinstance(v, str):
+            cand = [v + "_edited"]
+        elif isinstance(v, list):
+            # a NEW list is assigned: the old one may be the very object the caller passed as an argument
+            cand = [list(v) + [v[0]]] if v else []
+        elif isinstance(v, dict):
+            continue
+        else:
+            continue
+        for c in cand:
+            if c == v:
+                continue
+            try:
+                setattr(obj, f.name, c)
+                n += 1
+                break
+            except Exception:  # noqa: BLE001  (validator refused the value: try the next one)
+                continue
+    return n
 
 
 def split_kwargs(kw):
